@@ -38,12 +38,12 @@ def cases(tier, seed):
         for fmt in (EXTS if tier == "thorough" else ("png", "fits")):
             out.append(dict(t="template", scheme=scheme, fmt=fmt, seed=R.randrange(1 << 30), nrand=2000 if tier == "quick" else 20000))
     wf = ["study_png", "study_jpg", "study_fits", "study_fitswcs", "allsky", "multi_tan", "wwtl", "tile_fits_tan", "tile_fits_wcs", "tile_fits_toast", "pipeline"]
-    reps = 2 if tier == "quick" else 20
+    reps = 2 if tier == "quick" else 50
     for w in wf:
         for i in range(reps if w not in ("pipeline", "wwtl") else (1 if tier == "quick" else 3)):
             out.append(dict(t="workflow", wf=w, par=R.choice([1, 2]), seed=R.randrange(1 << 30)))
     seqs = [["fresh", "repeat"], ["fresh", "override", "repeat"], ["fresh", "repeat", "repeat"], ["fresh", "repeat", "override"]]
-    for i in range(6 if tier == "quick" else 60):
+    for i in range(6 if tier == "quick" else 200):
         out.append(dict(t="history", seq=seqs[i % len(seqs)], mode=["tan", "tan", "toast"][i % 3], seed=R.randrange(1 << 30), par=R.choice([1, 2])))
     return out
 
